@@ -674,9 +674,22 @@ class Evaluator:
                            dict(self.env), dict(self.gen_loads))
 
 
+_PURE_STR_PREDICATES = ("startswith", "endswith", "isidentifier", "isdigit",
+                        "isupper", "islower", "isalpha", "isalnum")
+
+
 def _truth(v):
     if v[0] == "const":
         return bool(v[1])
+    # a pure predicate method of a known string with known arguments
+    if v[0] == "call" and len(v) > 4 and isinstance(v[4], tuple) and \
+            v[4][0] == "recv" and v[4][1][0] == "const" and \
+            isinstance(v[4][1][1], str) and v[4][2] in _PURE_STR_PREDICATES \
+            and not v[3] and all(a[0] == "const" for a in v[2]):
+        try:
+            return bool(getattr(v[4][1][1], v[4][2])(*[a[1] for a in v[2]]))
+        except (TypeError, ValueError):
+            return None
     if v[0] == "unop" and v[1] == "Not":
         t = _truth(v[2])
         return None if t is None else not t
